@@ -102,7 +102,8 @@ fn render(k: usize, case: &Value, pts: &[Option<i128>]) -> Rendered {
     let lo = case["lo"].as_u64().unwrap() as usize;
     let hi = case["hi"].as_u64().unwrap() as usize;
     let ext = case["ext"].as_bool().unwrap();
-    let e = if ext { ", ..." } else { "" };
+    // the model's cases are abstract; among the equivalent spellings of the marker the harness rotates
+    let e = if ext { [", ...", " , ...", ",...", "\n, ..."][k % 4] } else { "" };
     let op = case["op"].as_str().unwrap_or("none");
     let (lo2, hi2) = (case["lo2"].as_u64().unwrap_or(0) as usize, case["hi2"].as_u64().unwrap_or(0) as usize);
     let second = |pts: &[Option<i128>]| if lo2 == hi2 { bound(pts, lo2) } else { format!("{}..{}", bound(pts, lo2), bound(pts, hi2)) };
